@@ -45,7 +45,8 @@ def draw_case(data, tier):
             "order_x": list(data.draw(st.permutations(list(range(n))), label="order_x")), "order_y": list(data.draw(st.permutations(list(range(n))), label="order_y")),
             "jit_x": data.draw(st.booleans(), label="jit_x"), "jit_y": data.draw(st.booleans(), label="jit_y"), "g": gen.draw_g(data, d),
             "mode": data.draw(st.integers(0, len(MODES) - 1), label="mode"), "seed": data.draw(st.integers(0, 99999), label="seed"),
-            "ints": data.draw(st.booleans(), label="integer_values")}
+            "ints": data.draw(st.booleans(), label="integer_values"),
+            "near": data.draw(st.integers(0, 3), label="prediction_near_target") == 0}
 
 
 def _ref_loss(which, reduce, X, Y, d, steps, spatial):
@@ -100,7 +101,11 @@ def run_case(case):
     X, Y = {}, {}
     for t, c in sig:
         shp = (B, c * steps) + shape + (d,) * t[0]
-        if case["ints"]:
+        if case.get("near"):
+            # a nearly converged prediction: target plus a relative 1e-3 perturbation, fields with an offset
+            Y[t] = (5.0 + rng.standard_normal(shp)).astype(np.float32).astype(np.float64)
+            X[t] = (Y[t] * (1.0 + 1e-3 * rng.standard_normal(shp))).astype(np.float32).astype(np.float64)
+        elif case["ints"]:
             X[t] = rng.integers(-3, 4, size=shp).astype(np.float64)
             Y[t] = rng.integers(-3, 4, size=shp).astype(np.float64)
         else:
@@ -117,6 +122,11 @@ def run_case(case):
     y = mk(Y, oy, case["jit_y"])
     exp = _ref_loss(which, reduce, X, Y, d, steps, spatial)
     got = _lib_loss(which, reduce, x, y, steps)
+    if case.get("near"):
+        labels.append("prediction_near_target")
+        # small losses: measure the error relative to the loss itself (a correct float32 evaluation of sum (x-y)^2 keeps ~1e-6)
+        if np.asarray(exp).shape == got.shape and rel_defect(got, exp, floor=1e-30) > 1e-3:
+            return result(viol(f"C18/{which}/definition-near-target", f"prediction within 1e-3 of the target: got {got.tolist()}, float64 definition {np.asarray(exp).tolist()}"), nontrivial, key, labels)
     if np.asarray(exp).shape != got.shape:
         return result(viol(f"C18/{which}/shape", f"result shape {got.shape}, definition gives {np.asarray(exp).shape}"), nontrivial, key, labels)
     if rel_defect(got, exp) > TOL:
